@@ -1475,7 +1475,7 @@ class Discovery(object):
                         SubscribeReplicaMessage(replica, False))
                     # remove all knowledge of current replicas as we are not
                     #  subscribed any more
-                    self._replicas_data.pop(replica, None)
+                    self._forget_replicas(replica)
             elif cb is not None:
                 raise ValueError(
                     'No corresponding callback found for replica %s : %s',
@@ -1485,8 +1485,17 @@ class Discovery(object):
                 SubscribeReplicaMessage(replica, False))
             # remove all knowledge of current replicas as we are not
             #  subscribed any more
-            self._replicas_data.pop(replica, None)
+            self._forget_replicas(replica)
         return removed
+
+    def _forget_replicas(self, replica: ComputationName):
+        # The replica we host ourselves is not something we learned through
+        # the subscription: it must stay known, otherwise un-registering it
+        # later is silently ignored and the directory lists it forever.
+        if self.own_agent in self._replicas_data.get(replica, ()):
+            self._replicas_data[replica] = {self.own_agent}
+        else:
+            self._replicas_data.pop(replica, None)
 
     def replica_agents(self, replica: ComputationName) -> Set[AgentName]:
         """
